@@ -157,10 +157,13 @@ def support_case(shard, env, res):
 
 
 def rgb_reply(rnd, digits):
-    comps = ["%0*x" % (digits, rnd.getrandbits(4 * digits)) for _ in range(3)]
+    # XParseColor: every component has 1..4 hex digits of its own (rgb:<r>/<g>/<b> with
+    # r, g, b := h | hh | hhh | hhhh); terminals usually use one width, the grammar does not
+    widths = [digits] * 3 if rnd.random() < 0.7 else [rnd.randint(1, 4) for _ in range(3)]
+    comps = ["%0*x" % (w, rnd.getrandbits(4 * w)) for w in widths]
     if rnd.random() < 0.3:
-        comps = [rnd.choice(["0" * digits, "f" * digits, "F" * digits, "8" + "0" * (digits - 1)]) for _ in range(3)]
-    exp = tuple(int(c, 16) * 255 // ((1 << (4 * digits)) - 1) for c in comps)
+        comps = [rnd.choice(["0" * w, "f" * w, "F" * w, "8" + "0" * (w - 1)]) for w in widths]
+    exp = tuple(int(c, 16) * 255 // ((1 << (4 * len(c))) - 1) for c in comps)
     return comps, exp
 
 
